@@ -52,6 +52,12 @@ pub struct AStats {
     pub words: u64,
     pub extra_word_runs: u64,
     pub adversarial: u64,
+    /// largest L1(weights() - input) / (eps * sum) over the float vectors (f32, f64)
+    pub worst_l1: [f64; 2],
+    /// the same for vectors of at least 1000 entries
+    pub worst_l1_long: [f64; 2],
+    /// largest L1 error / aggregate bound
+    pub worst_l1_ratio: [f64; 2],
 }
 
 fn lits<W: Wt>(m: &[W]) -> Vec<Lit> {
@@ -132,6 +138,31 @@ where
                 "model-mismatch(weights)".to_string(),
                 format!("weights()[{i}] = {} but the input was {} (input {:?})", back[i].lit(), ws[i].lit(), lits(&ws)),
             ));
+        }
+    }
+    if W::IS_FLOAT {
+        let l1: f64 = (0..n).map(|i| (back[i].to_f64() / wmax - scaled[i]).abs()).sum::<f64>() / (eps * sum_scaled);
+        let k = if W::TY == WTy::F32 { 0 } else { 1 };
+        // aggregate bound ("agrees to rounding error", in units of eps * sum): 8 for the
+        // final conversions, 2 log2(n) for the (pairwise) sum that every column is measured
+        // against, and 2 n wmax / sum for the roundings of a large entry that donates to up
+        // to n columns.  For vectors without a dominant entry this is ~(10 + 2 log2 n) eps,
+        // far tighter than the per-entry worst case (n + 4) eps * sum used above.
+        let bound = 8.0 + 2.0 * (n as f64).log2() + 2.0 * n as f64 / sum_scaled;
+        if l1.is_finite() {
+            st.worst_l1_ratio[k] = st.worst_l1_ratio[k].max(l1 / bound);
+            if l1 > bound && deferred.is_none() {
+                deferred = Some((
+                    "model-mismatch(weights)".to_string(),
+                    format!("weights() differs from the input by {l1:.1} eps*sum in L1 norm (bound {bound:.1}: 8 + 2 log2 n + 2 n wmax/sum); input {:?}", lits(&ws)),
+                ));
+            }
+        }
+        if l1.is_finite() {
+            st.worst_l1[k] = st.worst_l1[k].max(l1);
+            if n >= 1000 {
+                st.worst_l1_long[k] = st.worst_l1_long[k].max(l1);
+            }
         }
     }
     // ---- adversarial words: every column (up to 64) x extreme threshold words --------
@@ -366,6 +397,20 @@ fn random_vector<W: Wt>(r: &mut SimRng) -> Vec<Lit> {
     // narrow integer types: lengths above MAX (MAX/len is then 0: any non-zero weight is
     // invalid, all-zero is InsufficientNonZero)
     let type_max = W::max_val().to_f64();
+    // narrow integer types at the boundary len = MAX-1, MAX, MAX+1: MAX/len is 1, 1, 0
+    if !W::IS_FLOAT && type_max < 70_000.0 && below(r, 6) == 0 {
+        let len = (type_max as usize + below(r, 3) as usize).saturating_sub(1).max(1);
+        let all_zero = below(r, 8) == 0;
+        let hot = below(r, len as u64) as usize;
+        return (0..len).map(|i| if !all_zero && (i == hot || below(r, 3) == 0) { "1".to_string() } else { "0".to_string() }).collect();
+    }
+    // long periodic float vectors: rounding that drifts instead of averaging out
+    if W::IS_FLOAT && below(r, 8) == 0 {
+        let len = 4000 + below(r, 6001) as usize;
+        let pats: [&[f64]; 5] = [&[1.1, 3.3], &[0.1, 0.7, 2.9], &[3.3, 1.1, 1.1, 1.1], &[0.3, 0.3, 5.7], &[1e-3, 2.2, 1.7, 0.9]];
+        let pat = pats[below(r, pats.len() as u64) as usize];
+        return (0..len).map(|i| W::from_f64v(pat[i % pat.len()]).lit()).collect();
+    }
     if !W::IS_FLOAT && type_max < 70_000.0 && below(r, 4) == 0 {
         let len = type_max as usize + 1 + below(r, 300) as usize;
         let all_zero = below(r, 5) == 0;
@@ -624,6 +669,12 @@ impl Engine for AliasEngine {
         res.stat_sum("statistical_law_vectors", st.stat_law as f64);
         res.stat_sum("runs_needing_a_third_word", st.extra_word_runs as f64);
         res.stat_sum("adversarial_two_word_runs", st.adversarial as f64);
+        res.stat_max("float_weights_L1_error_over_aggregate_bound:f32", st.worst_l1_ratio[0]);
+        res.stat_max("float_weights_L1_error_over_aggregate_bound:f64", st.worst_l1_ratio[1]);
+        res.stat_max("float_weights_L1_error_over_eps_sum:f32", st.worst_l1[0]);
+        res.stat_max("float_weights_L1_error_over_eps_sum:f64", st.worst_l1[1]);
+        res.stat_max("float_weights_L1_error_over_eps_sum(len>=1000):f32", st.worst_l1_long[0]);
+        res.stat_max("float_weights_L1_error_over_eps_sum(len>=1000):f64", st.worst_l1_long[1]);
         res.inj("F1-two-words", st.adversarial);
         res.fired("F1-two-words", st.adversarial);
         res.inj("L-lattice(2 words)", st.exact_evals);
